@@ -23,10 +23,14 @@ Definition eobs_eqb (a b : eobs) : bool :=
   str_eqb (oe_method a) (oe_method b) && (oe_timeout a =? oe_timeout b)%Z && (oe_cc a =? oe_cc b)%Z &&
   str_list_eqb (oe_hdrs a) (oe_hdrs b) && forallb2 bobs_eqb (oe_backends a) (oe_backends b) &&
   fkind_eqb (oe_factory a) (oe_factory b).
+(* async agents: timeout, workers, health interval, the backends as above, the pipe's outcome *)
+Definition aobs_eqb (a b : aobs) : bool :=
+  (oa_timeout a =? oa_timeout b)%Z && (oa_workers a =? oa_workers b)%Z && (oa_health a =? oa_health b)%Z &&
+  forallb2 bobs_eqb (oa_backends a) (oa_backends b) && fkind_eqb (oa_factory a) (oa_factory b).
 Definition obs_eqb (a b : obs) : bool :=
   match a, b with
   | OPanic, OPanic | OErr, OErr => true
-  | OOk x, OOk y => forallb2 eobs_eqb x y
+  | OOk x xa, OOk y ya => forallb2 eobs_eqb x y && forallb2 aobs_eqb xa ya
   | _, _ => false
   end.
 
